@@ -102,12 +102,14 @@ Definition composition_nil : Parser.outcome :=
   Parser.parse cfg_strict conv_c05 u_nil (Some root_nil)
     (pump (expected_of conv_c05 (EventGen.generate false conv_c05 u_nil o_nil))).
 
-(* A(b=B(x=1)), b nillable: the round trip returns A(b=None) — in the faithful models (composition)
+(* A(b=B(x=1)), b nillable: the instance B(x=1) has no content (an attribute only), the element keeps
+   xsi:nil="true" and the round trip returns A(b=None) — in the faithful models (composition)
    and on the events the real handler delivered for the real writer's output; the only guard clause
-   the case violates is the nillable flag (with the flags cleared the metadata and the instance are
-   inside the guards) *)
+   the case violates is has_content for an instance in a nillable field (the metadata is inside
+   wf_model; with the nillable flags cleared the instance fits) *)
 Theorem nil_conflation_refuted :
-  wf_model u_nil root_nil = false
+  wf_model u_nil root_nil = true
+  /\ fits conv_c05 u_nil ok_c05 py_isspace 2 root_nil o_nil = false
   /\ wf_model (clear_nil u_nil) root_nil = true
   /\ fits conv_c05 (clear_nil u_nil) ok_c05 py_isspace 2 root_nil o_nil = true
   /\ composition_nil = Parser.Ok (VObj root_nil [([98], VNone)]) []
